@@ -101,6 +101,8 @@ class C11R(SchedProp):
         'CylcModel.C11R.restart_instances_counterexample',
         'CylcModel.C11R.restart_instances_repaired',
         'CylcModel.C11R.final_mem_run',
+        'CylcModel.C11R.message_output_recorded',
+        'CylcModel.C11R.message_keeps_outputs',
     ]
     statement_note = (
         'partial: proofs over the Sched3Set model (scheduler core + flows + flow wait + `cylc set` + the task_states / '
@@ -128,7 +130,12 @@ class C11R(SchedProp):
         'empty). NOT PROVED: that the committed row agrees with the proxy on flow wait / submit number / outputs in the '
         'states where no merge and no respawn-from-history happened since the last output (checked by the judge on every '
         'real trace and tied by the correspondence, which compares the committed rows after every operation); '
-        '`cylc trigger` (not an op of Sched3Set: the trigw runs are judged on the real trace only).')
+        '`cylc trigger` (not an op of Sched3Set: the trigw runs are judged on the real trace only). DELIVERY (out-of-order job '
+        'messages): message_output_recorded / message_keeps_outputs - the first step of process_message (set_message_complete) '
+        'records an output message of the task among its completed outputs whatever its status and whatever arrived before, '
+        'and forgets none; NOT PROVED that the rest of process_message keeps it and that the completed task then leaves the '
+        'pool with its children spawned - the delivery judge (output-dropped, retained-delivered) checks that on every '
+        'message the real scheduler receives, the correspondence ties model and code on the same runs.')
     technique = ('line-by-line Lean port of restart / flows / `cylc set` (Sched3Set), trace correspondence with the real '
                  'Scheduler, judges on the observed traces (retention after every operation, snapshot before the stop '
                  'vs. after the restart), invariant lemmas per primitive')
